@@ -370,6 +370,24 @@ func myZones() []string {
 
 // systematic part: per zone all midnight-gap days with neighbours, boundaries, transitions
 func sweep(yield func(dCase) bool) {
+	// nothing may depend on the date the library is asked on: the days of the current week, hour by hour, in the synthetic
+	// zone whose clock springs forward and falls back on every one of them
+	if ev.Shard() == 0 {
+		now := time.Now().UTC()
+		for d := -3; d <= 4; d++ {
+			day := now.AddDate(0, 0, d)
+			if !yield(dCase{Zone: zones.Synthetic, Kind: "date", Y: day.Year(), M: int(day.Month()), D: day.Day()}) {
+				return
+			}
+			for h := 0; h < 24; h++ {
+				for _, mi := range []int{0, 30, 59} {
+					if !yield(dCase{Zone: zones.Synthetic, Kind: "datetime", Y: day.Year(), M: int(day.Month()), D: day.Day(), H: h, Mi: mi, S: 7}) {
+						return
+					}
+				}
+			}
+		}
+	}
 	boundaries := []spec.Civil{{Y: 1, M: 1, D: 2}, {Y: 1, M: 12, D: 31}, {Y: 1582, M: 10, D: 10}, {Y: 1899, M: 12, D: 31}, {Y: 1900, M: 2, D: 28}, {Y: 1900, M: 3, D: 1}, {Y: 1970, M: 1, D: 1}, {Y: 1999, M: 12, D: 31},
 		{Y: 2000, M: 1, D: 1}, {Y: 2000, M: 2, D: 29}, {Y: 2024, M: 2, D: 29}, {Y: 2024, M: 3, D: 31}, {Y: 2024, M: 10, D: 27}, {Y: 2038, M: 1, D: 19}, {Y: 2100, M: 2, D: 28}, {Y: 9999, M: 12, D: 31}}
 	for _, z := range myZones() {
